@@ -16,6 +16,7 @@ package main
 
 import (
 	"fmt"
+	"os"
 	"runtime"
 	"sort"
 	"strings"
@@ -247,9 +248,7 @@ func (e *c5e) topClosers() int {
 				n += d.v.topClosers()
 			}
 		}
-		if n > 0 {
-			return 1
-		}
+		return n
 	case '&':
 		n := 0
 		for _, a := range e.args {
@@ -272,6 +271,137 @@ func (e *c5e) closeOfDef() bool {
 	}
 	for _, a := range e.args {
 		if a.closeOfDef() {
+			return true
+		}
+	}
+	return false
+}
+
+// hasEllTop: the struct denoted by e has a `...` at its own level (through close,
+// definition bodies, conjunctions and embeddings).
+func (e *c5e) hasEllTop() bool {
+	switch e.op {
+	case '{':
+		for _, d := range e.decls {
+			if d.kind == '.' || (d.kind == 'e' && d.v.hasEllTop()) {
+				return true
+			}
+		}
+	case 'c', 'd':
+		return e.args[0].hasEllTop()
+	case '&':
+		for _, a := range e.args {
+			if a.hasEllTop() {
+				return true
+			}
+		}
+	}
+	return false
+}
+
+func (e *c5e) unwrap() *c5e {
+	for e.op == 'c' || e.op == 'd' {
+		e = e.args[0]
+	}
+	return e
+}
+
+func (e *c5e) anyNode(f func(*c5e) bool) bool {
+	if f(e) {
+		return true
+	}
+	for _, d := range e.decls {
+		if d.v != nil && d.v.anyNode(f) {
+			return true
+		}
+	}
+	for _, a := range e.args {
+		if a.anyNode(f) {
+			return true
+		}
+	}
+	return false
+}
+
+// topLits: the struct literals that make up e at its own level.
+func (e *c5e) topLits(out *[]*c5e) {
+	switch e.op {
+	case '{':
+		*out = append(*out, e)
+	case 'c', 'd':
+		e.args[0].topLits(out)
+	case '&':
+		for _, a := range e.args {
+			a.topLits(out)
+		}
+	}
+}
+
+// ellipsisInEmbeddedConjunction: some embedding is a conjunction one of whose operands
+// has `...` at its own level.
+func (e *c5e) ellipsisInEmbeddedConjunction() bool {
+	return e.anyNode(func(n *c5e) bool {
+		if n.op != '{' {
+			return false
+		}
+		for _, d := range n.decls {
+			if d.kind != 'e' {
+				continue
+			}
+			u := d.v.unwrap()
+			if u.op == '&' && u.hasEllTop() {
+				return true
+			}
+			// a literal that embeds such a conjunction at its own level
+			var ls []*c5e
+			u.topLits(&ls)
+			for _, l := range ls {
+				for _, d2 := range l.decls {
+					if d2.kind == 'e' {
+						if u2 := d2.v.unwrap(); u2.op == '&' && u2.hasEllTop() {
+							return true
+						}
+					}
+				}
+			}
+		}
+		return false
+	})
+}
+
+// nestedEmbedding: an embedding occurs anywhere inside an embedded expression.
+func (e *c5e) nestedEmbedding() bool {
+	hasEmb := func(n *c5e) bool {
+		if n.op != '{' {
+			return false
+		}
+		for _, d := range n.decls {
+			if d.kind == 'e' {
+				return true
+			}
+		}
+		return false
+	}
+	return e.anyNode(func(n *c5e) bool {
+		if n.op != '{' {
+			return false
+		}
+		for _, d := range n.decls {
+			if d.kind == 'e' && d.v.anyNode(hasEmb) {
+				return true
+			}
+		}
+		return false
+	})
+}
+
+// recConj: a conjunction one of whose operands is (or embeds) a definition reference.
+func (e *c5e) recConj() bool {
+	if e.op != '&' {
+		return false
+	}
+	for _, a := range e.args {
+		if a.anyNode(func(n *c5e) bool { return n.op == 'd' }) {
 			return true
 		}
 	}
@@ -315,7 +445,7 @@ func c5fields(x cue.Value) string {
 	for it.Next() {
 		sel := it.Selector()
 		s := sel.String()
-		if sel.ConstraintType() == 0 || (!strings.HasSuffix(s, "?") && !strings.HasSuffix(s, "!")) {
+		if sel.LabelType() == cue.StringLabel && !strings.HasSuffix(s, "?") && !strings.HasSuffix(s, "!") {
 			v := it.Value()
 			if v.IncompleteKind() == cue.StructKind {
 				s += c5fields(v)
@@ -333,7 +463,14 @@ func c5eval(src string, wantAllows bool) (res c5res) {
 			res = c5res{class: "panic"}
 		}
 	}()
-	ctx := cuecontext.New()
+	box := c5ctxPool.Get().(*c5ctxBox)
+	defer c5ctxPool.Put(box)
+	if box.ctx == nil || box.uses >= 64 {
+		box.ctx = cuecontext.New()
+		box.uses = 0
+	}
+	box.uses++
+	ctx := box.ctx
 	v := ctx.CompileString(src)
 	x := v.LookupPath(cue.ParsePath("x"))
 	if !x.Exists() {
@@ -355,6 +492,14 @@ func c5eval(src string, wantAllows bool) (res c5res) {
 		}
 	}
 	return res
+}
+
+// contexts are reused for a while (creating one per case dominates the run time)
+var c5ctxPool = sync.Pool{New: func() any { return &c5ctxBox{} }}
+
+type c5ctxBox struct {
+	ctx  *cue.Context
+	uses int
 }
 
 // ---- generators ------------------------------------------------------------------------
@@ -434,7 +579,13 @@ func c5genLit(r *Rng, depth int) *c5e {
 		switch r.Intn(14) {
 		case 0, 1, 2, 3, 4, 5, 6:
 			m := Pick(r, []string{"", "?", "?", "!"})
-			ds = append(ds, fld(c5genLabel(r), m, c5genValue(r, depth)))
+			v := c5genValue(r, depth)
+			if m == "!" {
+				// a required constraint whose value is bottom makes the struct bottom; whether
+				// that is reported below hidden/definition fields is outside this property
+				v = c5top
+			}
+			ds = append(ds, fld(c5genLabel(r), m, v))
 		case 7, 8:
 			ds = append(ds, ptn(Pick(r, c5pats), c5genValue(r, depth)))
 		case 9:
@@ -556,9 +707,17 @@ func c5run(cs c5case, direct bool) c5out {
 
 func c5emit(c *Cfg, o c5out) {
 	sw, dw := o.cs.schema.Word(), o.cs.data.Word()
+	// known-finding classes: only cases the implementation ACCEPTS can belong to them
 	tag := ""
-	if o.cs.schema.closeOfDef() {
-		tag = "close-of-definition-reference"
+	if o.res.class == "ok" {
+		switch {
+		case o.cs.schema.closeOfDef():
+			tag = "close-of-definition-reference"
+		case o.cs.schema.ellipsisInEmbeddedConjunction():
+			tag = "ellipsis-in-embedded-conjunction"
+		case o.cs.schema.nestedEmbedding():
+			tag = "nested-embedding"
+		}
 	}
 	ans := o.res.class
 	if ans == "ok" {
@@ -584,7 +743,19 @@ func c5emit(c *Cfg, o c5out) {
 	}
 	if o.sole != "" {
 		rp := map[string]string{"schema": sw, "data": dw, "cue": c5source(o.cs.schema, o.cs.data)}
-		c.Direct(o.sole == o.res.class, tag0(tag, "sole-embedding"), "`{s} & d` ("+o.sole+") differs from `s & d` ("+o.res.class+")", rp)
+		stag := "sole-embedding"
+		wrapped := lit(emb(o.cs.schema))
+		switch {
+		case o.sole == "ok" && o.cs.schema.closeOfDef():
+			stag = "close-of-definition-reference"
+		case o.sole == "ok" && wrapped.ellipsisInEmbeddedConjunction():
+			stag = "ellipsis-in-embedded-conjunction"
+		case o.sole == "ok" && wrapped.nestedEmbedding():
+			stag = "nested-embedding"
+		case o.sole == "err" && o.res.class == "ok" && o.cs.schema.recConj():
+			stag = "sole-embedding-of-conjunction-with-definition"
+		}
+		c.Direct(o.sole == o.res.class, stag, "`{s} & d` ("+o.sole+") differs from `s & d` ("+o.res.class+")", rp)
 		c.Direct(o.optAbs == o.res.class, tag0(tag, "optional-absent"), "an optional constraint on an absent field changed the verdict to "+o.optAbs+" from "+o.res.class, rp)
 		if o.opened != "" {
 			c.Direct(!(o.res.class == "ok" && o.opened != "ok"), tag0(tag, "closing-only-restricts"), "the closed schema accepts data its body rejects", rp)
@@ -626,7 +797,125 @@ func c5runAll(c *Cfg, cases []c5case, directEvery int) {
 	}
 }
 
+// ---- replay: parse protocol words back (./verifharness C05 -replay FILE, lines "schema data")
+
+type c5parser struct {
+	s string
+	i int
+}
+
+func (p *c5parser) peek() byte {
+	if p.i < len(p.s) {
+		return p.s[p.i]
+	}
+	return 0
+}
+
+func (p *c5parser) num() int {
+	n := 0
+	for p.i < len(p.s) && p.s[p.i] >= '0' && p.s[p.i] <= '9' {
+		n = n*10 + int(p.s[p.i]-'0')
+		p.i++
+	}
+	return n
+}
+
+func (p *c5parser) expr() *c5e {
+	ch := p.peek()
+	switch {
+	case ch == 'T' || ch == 'B' || ch == 'I' || ch == 'S':
+		p.i++
+		return &c5e{op: ch}
+	case (ch == 'i' || ch == 's') && p.i+1 < len(p.s) && p.s[p.i+1] >= '0' && p.s[p.i+1] <= '9':
+		p.i++
+		return &c5e{op: ch, n: p.num()}
+	case ch == '{':
+		p.i++
+		e := &c5e{op: '{'}
+		for p.peek() != '}' && p.peek() != 0 {
+			if p.peek() == ',' {
+				p.i++
+			}
+			switch {
+			case strings.HasPrefix(p.s[p.i:], "..."):
+				p.i += 3
+				e.decls = append(e.decls, ellD())
+			case p.peek() == '[':
+				j := strings.IndexByte(p.s[p.i:], ']')
+				pat := p.s[p.i+1 : p.i+j]
+				p.i += j + 2
+				e.decls = append(e.decls, ptn(pat, p.expr()))
+			default:
+				j := p.i
+				for j < len(p.s) && (p.s[j] == '_' || p.s[j] == '#' || (p.s[j] >= 'a' && p.s[j] <= 'z') || (p.s[j] >= 'A' && p.s[j] <= 'Z') || (p.s[j] >= '0' && p.s[j] <= '9')) {
+					j++
+				}
+				if j > p.i && j < len(p.s) && (p.s[j] == ':' || ((p.s[j] == '?' || p.s[j] == '!') && p.s[j+1] == ':')) {
+					l := p.s[p.i:j]
+					m := ""
+					if p.s[j] != ':' {
+						m = string(p.s[j])
+						j++
+					}
+					p.i = j + 1
+					e.decls = append(e.decls, fld(l, m, p.expr()))
+				} else {
+					e.decls = append(e.decls, emb(p.expr()))
+				}
+			}
+		}
+		p.i++
+		return e
+	case ch == 'c' || ch == 'd':
+		p.i += 2
+		a := p.expr()
+		p.i++
+		return &c5e{op: ch, args: []*c5e{a}}
+	case ch == '&':
+		p.i += 2
+		e := &c5e{op: '&'}
+		for {
+			e.args = append(e.args, p.expr())
+			if p.peek() == ',' {
+				p.i++
+				continue
+			}
+			break
+		}
+		p.i++
+		return e
+	}
+	panic("bad word at " + p.s[p.i:])
+}
+
+func c5parse(w string) *c5e { return (&c5parser{s: w}).expr() }
+
+func c5replay(c *Cfg) {
+	b, err := os.ReadFile(c.Replay)
+	if err != nil {
+		fmt.Fprintln(os.Stderr, err)
+		return
+	}
+	for _, line := range strings.Split(string(b), "\n") {
+		f := strings.Fields(line)
+		if len(f) < 2 {
+			continue
+		}
+		s, d := c5parse(f[0]), c5parse(f[1])
+		o := c5run(c5case{schema: s, data: d, kind: "replay"}, true)
+		src := c5source(s, d)
+		ctx := cuecontext.New()
+		x := ctx.CompileString(src).LookupPath(cue.ParsePath("x"))
+		fmt.Fprintf(os.Stderr, "---- %s %s\n%s=> %s %s allows=%v\n   validate: %v\n", f[0], f[1], src, o.res.class, o.res.fields, o.res.allows, x.Validate(cue.Concrete(true)))
+		c5emit(c, o)
+	}
+}
+
 func runC05(c *Cfg) {
+	if c.Replay != "" {
+		c5replay(c)
+		return
+	}
 	r := NewRng(c.Seed)
 	var cases []c5case
 	add := func(kind string, s, d *c5e) { cases = append(cases, c5case{schema: s, data: d, kind: kind}) }
@@ -648,8 +937,15 @@ func runC05(c *Cfg) {
 		lit(A("!", c5int)), lit(A("!", c5int), A("", c5one)), lit(A("?", c5one), A("?", c5two)),
 		lit(emb(df(lit(A("?", c5int)))), ellD()), conj(df(lit(A("?", c5int))), lit(ellD())),
 		cl(df(lit(A("?", lit(B("?", c5int)))))),
+		// sole embedding of a conjunction with a definition (C05_sole_embedding_false)
+		conj(df(lit(B("?", c5top))), lit(B("?", lit(C("?", c5int))))),
+		lit(emb(conj(df(lit(B("?", c5top))), lit(B("?", lit(C("?", c5int))))))),
+		// `{A}` versus `A` with an ellipsis in an embedded conjunction / nested embeddings
+		lit(emb(conj(df(lit(A("?", c5int))), lit(ellD())))),
+		lit(emb(lit(emb(lit(ellD())), A("?", df(lit()))))),
+		lit(emb(lit(B("", lit(emb(df(lit(ptn("!c", c5int))))), ptn("b$", df(lit(C("", c5two))))))),
 	}
-	dataVals := []*c5e{c5one, c5s1, lit(), lit(fld("b", "", c5one)), lit(fld("c", "", c5one))}
+	dataVals := []*c5e{c5one, c5s1, lit(), lit(fld("b", "", c5one)), lit(fld("c", "", c5one)), lit(fld("zz", "", c5one))}
 	corpusD := c5dataUniverse([]string{"a", "b", "c", "ab", "_h"}, dataVals, 2)
 	for _, s := range corpusS {
 		for _, d := range corpusD {
@@ -716,12 +1012,15 @@ func runC05(c *Cfg) {
 			innerW = append(innerW, c5wraps(l, false)...)
 		}
 		data2 := c5dataUniverse([]string{"a", "b", "c"}, []*c5e{c5one, lit(), lit(fld("b", "", c5one)), lit(fld("c", "", c5one)), lit(fld("ab", "", c5one))}, 2)
+		k2 := 0
 		for _, iw := range innerW {
 			for _, m := range []string{"", "?", "!"} {
 				outer := lit(fld("a", m, iw))
 				for _, ow := range c5wraps(outer, false) {
 					for _, d := range data2 {
-						add("exh-depth2", ow, d)
+						if k2++; c.Thorough() || k2%3 == int(c.Seed)%3 {
+							add("exh-depth2", ow, d)
+						}
 					}
 				}
 			}
@@ -730,7 +1029,9 @@ func runC05(c *Cfg) {
 				outer := lit(emb(df(lit(fld("a", "", iw)))), fld("a", "", own))
 				for _, ow := range []*c5e{outer, cl(outer), df(outer)} {
 					for _, d := range data2 {
-						add("exh-embed-own", ow, d)
+						if k2++; c.Thorough() || k2%3 == int(c.Seed)%3 {
+							add("exh-embed-own", ow, d)
+						}
 					}
 				}
 			}
@@ -738,7 +1039,7 @@ func runC05(c *Cfg) {
 	}
 
 	// ---- random: depth <= 3, conjunctions of <= 3, reached directly / via definition / embedded
-	nrand := c.Pick(60000, 1500000)
+	nrand := c.Pick(25000, 1200000)
 	if c.Focus {
 		nrand = c.Pick(150000, 600000)
 	}
@@ -753,7 +1054,7 @@ func runC05(c *Cfg) {
 		add(fmt.Sprintf("random-depth%d-conj%d", depth, nc), conj(es...), c5genData(rr, depth-1+rr.Intn(2)))
 	}
 
-	directEvery := 3
+	directEvery := c.Pick(5, 3)
 	if c.Focus {
 		directEvery = 0
 	}
